@@ -512,13 +512,12 @@ def run_shard(spec, ctx):
         nscripts = 400
     else:
         mine = [c for c in free if c % of == i]
-        nscripts = 400
+        nscripts = 2000
     for k, code in enumerate(mine):
         pred = PREDS[(code + k) % len(PREDS)]
         judge_fork(ctx, rng, code, pred, nscripts)
-        if tier == 'quick':
-            judge_fork(ctx, rng, code, PREDS[(code + k + 1) % len(PREDS)],
-                       nscripts // 2)
+        judge_fork(ctx, rng, code, PREDS[(code + k + 1) % len(PREDS)],
+                   nscripts // 2)
 
 
 def finalize(agg, tier):
